@@ -7,7 +7,7 @@
    A share `IllShare` of the calls is made ill-formed on purpose (rejected-call actions of C14a).
    Run with -simulate; every behaviour reaching MaxLen is printed as one JSON program. *)
 EXTENDS Integers, Sequences, TLC, Json, FiniteSets, SequencesExt
-CONSTANTS MaxLen, Slots, MaxDim, OpSet, IllShare, CoefMax
+CONSTANTS MaxLen, Slots, MaxDim, OpSet, IllShare, CoefMax, Recipe
 Coef == (-CoefMax)..CoefMax
 RE(S) == RandomElement(S)
 \* NOTE on randomness: TLC re-evaluates a LET-bound or lazily represented expression at every use, so
@@ -19,16 +19,17 @@ SetToSeqL(S) == SetToSortSeq(S, <)
 Dot(u, v) == LET RECURSIVE D(_)
                  D(i) == IF i = 0 THEN 0 ELSE u[i] * v[i] + D(i-1)
              IN D(IF Len(u) < Len(v) THEN Len(u) ELSE Len(v))
-VARIABLES prog, dim, topo, anchor, phase, cur
-vars == <<prog, dim, topo, anchor, phase, cur>>
+VARIABLES prog, dim, topo, anchor, phase, cur, focus, nd, rk
+vars == <<prog, dim, topo, anchor, phase, cur, focus, nd, rk>>
 D0 == [op |-> "", dst |-> 1, src |-> 0, n |-> 0, topo |-> "C", k |-> "x", var |-> 0, den |-> 1, mod |-> 0,
        v |-> <<>>, w |-> <<>>, vs |-> <<>>, cs |-> <<>>, gs |-> <<>>]
 Init == /\ prog = <<>> /\ dim = [s \in Slots |-> -1] /\ topo = [s \in Slots |-> "C"]
         /\ anchor = [s \in Slots |-> [i \in 1..MaxDim |-> RE(-1..1)]]
-        /\ phase = "op" /\ cur = "none"
+        /\ phase = "op" /\ cur = "none" /\ focus = 1 /\ nd \in {RE(0..3)} /\ rk \in {RE({"op", "op", "copy"})}
 Alive(s) == dim[s] >= 0
 AliveS == {s \in Slots : Alive(s)}
-Ill == RE(1..100) <= IllShare
+\* NOTE: a zero-arity definition built from constants only would be evaluated ONCE by TLC and cached; the dummy parameter prevents that
+Ill(x) == RE(1..100) <= IllShare
 \* a constraint over n dimensions that the anchor a satisfies (kind k)
 Friendly(a, n, k) == LET mk(t, sl) == Mat(<<(-Dot(t, a)) + (IF k = "eq" THEN 0 ELSE IF k = "gt" THEN 1 + sl ELSE sl)>> \o t)
                      IN CHOOSE r \in {mk(t, sl) : t \in {Vec(n)}, sl \in {RE(0..2)}} : TRUE
@@ -58,7 +59,7 @@ GenOps == {"add_generator", "relation_with_generator"}
 GensOps == {"add_generators"}
 CgOps == {"add_congruence", "refine_with_congruence", "relation_with_congruence"}
 CgsOps == {"add_congruences", "refine_with_congruences"}
-BinMut == {"intersection", "poly_hull", "poly_difference", "time_elapse", "positive_time_elapse", "simplify_using_context", "hull_if_exact"}
+BinMut == {"intersection", "poly_hull", "poly_difference", "time_elapse", "positive_time_elapse", "simplify_using_context", "hull_if_exact", "H79_widening", "BHRZ03_widening"}
 PoolOps == {"copy_from", "assign", "swap", "conv_topo", "rebuild", "dumpload", "destroy"}
 UnMut == {"topological_closure"}
 ImgOps == {"affine_image", "affine_preimage", "gen_affine_image", "gen_affine_preimage", "bounded_affine_image", "bounded_affine_preimage"}
@@ -68,15 +69,39 @@ DimDown == {"remove_dims", "remove_higher", "fold"}
 DimOther == {"unconstrain", "unconstrain_set", "map_dims"}
 AllOps == CtorOps \cup UnObs \cup VarObs \cup ExprObs \cup BinObs \cup ConOps \cup ConsOps \cup GenOps \cup GensOps \cup CgOps \cup CgsOps
           \cup BinMut \cup PoolOps \cup UnMut \cup ImgOps \cup LhsOps \cup DimUp \cup DimDown \cup DimOther
+DriverOps == {"min_constraints", "min_generators", "constraints", "generators", "add_generator", "add_constraint", "is_empty", "contains", "equals", "add_generators", "add_constraints"}
 OpOK(op) == IF op \in CtorOps THEN TRUE ELSE AliveS # {}
-ChooseOp == /\ phase = "op" /\ Len(prog) < MaxLen
+(* Recipe mode (state x operation coverage, in the style of one test per transition): slot 1 and slot 2 are built with the
+   same dimension and topology, then nd in 0..3 state-driver calls move slot 1's lazy representation, then ONE target
+   operation drawn from OpSet is applied to slot 1 (with slot 2 as argument if binary), then both minimized descriptions
+   are observed.  Free mode: random walk over all operations. *)
+\* two kinds of recipe: "op"  : ctor, ctor, nd drivers on slot 1, target operation on slot 1, two observers;
+\*                        "copy": ctor, ctor, nd drivers on slot 1 (slot 1 may also serve as the const argument of a widening of
+\*                                slot 2), slot 2 := slot 1 by assignment / copy / swap, a mutator on the copy, two observers
+RecipeLen == IF rk = "op" THEN 5 + nd ELSE 6 + nd
+AfterCopy == Recipe /\ rk = "copy" /\ Len(prog) > 2 + nd
+RecipeTargets == (AllOps \cap OpSet) \ (CtorOps \cup {"destroy", "dumpload", "copy_from", "rebuild", "conv_topo", "swap", "assign"})
+RecipeOp == LET L == Len(prog) IN
+            IF L = 0 THEN RE({"from_cs", "from_gs", "from_cs"})
+            ELSE IF L = 1 THEN RE({"from_cs", "from_gs", "new"})
+            ELSE IF L < 2 + nd THEN (IF rk = "copy" /\ RE(1..4) = 1 THEN "H79_widening" ELSE RE(DriverOps))
+            ELSE IF rk = "op" THEN (IF L = 2 + nd THEN RE(RecipeTargets) ELSE IF L = 3 + nd THEN "min_constraints" ELSE "min_generators")
+            ELSE IF L = 2 + nd THEN RE({"assign", "assign", "copy_from", "swap"})
+            ELSE IF L = 3 + nd THEN RE(RecipeTargets \cap (ConOps \cup ConsOps \cup GenOps \cup GensOps \cup BinMut \cup UnMut \cup ImgOps \cup DimUp \cup DimDown \cup DimOther))
+            ELSE IF L = 4 + nd THEN "min_constraints" ELSE "min_generators"
+ChooseOp == /\ phase = "op" /\ Len(prog) < (IF Recipe THEN RecipeLen ELSE MaxLen)
             /\ LET ok == {o \in (AllOps \cap OpSet) : OpOK(o)} IN
-               \* constructors are favoured while few slots are alive
-               \E op \in {IF AliveS = {} \/ (Cardinality(AliveS) < Cardinality(Slots) /\ RE(1..3) = 1) THEN RE(CtorOps \cap OpSet) ELSE RE(ok)} : cur' = op
-            /\ phase' = "args" /\ UNCHANGED <<prog, dim, topo, anchor>>
+               \* one call in three is a "state driver" (an observer or a small mutator that moves the lazy representation:
+               \* minimisation, pending rows, sortedness), so that every operation is met in many internal states
+               \E op \in {IF Recipe THEN RecipeOp
+                          ELSE IF AliveS = {} \/ (Cardinality(AliveS) < Cardinality(Slots) /\ RE(1..3) = 1) THEN RE(CtorOps \cap OpSet)
+                          ELSE IF RE(1..3) = 1 /\ (DriverOps \cap ok) # {} THEN RE(DriverOps \cap ok) ELSE RE(ok)} : cur' = op
+            /\ phase' = "args" /\ UNCHANGED <<prog, dim, topo, anchor, focus, nd, rk>>
 SetDim(s, n, t) == dim' = [dim EXCEPT ![s] = n] /\ topo' = [topo EXCEPT ![s] = t] /\ UNCHANGED anchor
 ConOf(kinds, a, n) == CHOOSE c \in {[k |-> k, v |-> IF RE(1..5) <= 4 THEN Friendly(a, n, k) ELSE AnyCon(n)] : k \in {RE(kinds)}} : TRUE
-RawCon(n) == CHOOSE c \in {[k |-> k, v |-> AnyCon(n)] : k \in {RE({"ge", "eq", "gt"})}} : TRUE
+\* ill-formed systems also contain trivial constraints (tautologies, contradictions), one time in four
+TrivCon(n) == Mat(<<RE(-1..1)>> \o [i \in 1..n |-> 0])
+RawCon(n) == CHOOSE c \in {[k |-> k, v |-> IF RE(1..3) = 1 THEN TrivCon(n) ELSE AnyCon(n)] : k \in {RE({"ge", "eq", "gt"})}} : TRUE
 RawGen(n) == CHOOSE g \in {[k |-> k, v |-> Mat(<<d>> \o Vec(n))] : k \in {RE({"point", "cpoint", "ray", "line"})}, d \in {RE(0..2)}} : TRUE
 \* make a generator acceptable to the Generator constructors (positive divisor / non-zero direction)
 FixGen(g, n) == IF g.k \in {"point", "cpoint"} THEN [k |-> g.k, v |-> IF g.v[1] <= 0 THEN [g.v EXCEPT ![1] = 1] ELSE g.v]
@@ -84,9 +109,14 @@ FixGen(g, n) == IF g.k \in {"point", "cpoint"} THEN [k |-> g.k, v |-> IF g.v[1] 
 RandSeq(cnt, F(_)) == Mat([i \in 1..cnt |-> F(i)])
 Args ==
   /\ phase = "args" /\ phase' = "op" /\ cur' = "none"
-  /\ \E ill \in {Ill} :
+  \* locality: two calls in three go to the slot used last, so that sequences of calls build up state on one object
+  /\ UNCHANGED <<nd, rk>>
+  /\ \E s0 \in {IF Recipe THEN (IF Len(prog) = 1 \/ AfterCopy \/ (rk = "copy" /\ cur \in {"H79_widening", "assign", "copy_from", "swap"}) THEN 2 ELSE 1) ELSE IF AliveS = {} THEN focus ELSE IF Alive(focus) /\ RE(1..3) <= 2 THEN focus ELSE RE(AliveS)} : focus' = s0 /\
+     \E ill \in {Ill(Len(prog))} :
      \/ /\ cur \in CtorOps
-        /\ \E s \in {RE(Slots)} : \E n \in {RE(0..MaxDim)} : \E t \in {RE({"C", "NNC"})} : \E cnt \in {RE(1..4)} :
+        /\ \E s \in {IF Recipe \/ RE(1..2) = 1 THEN s0 ELSE RE(Slots)} :
+           \E n \in {IF Recipe /\ Len(prog) = 1 THEN dim[1] ELSE IF Recipe THEN RE(1..MaxDim) ELSE RE(0..MaxDim)} :
+           \E t \in {IF Recipe /\ Len(prog) = 1 THEN topo[1] ELSE RE({"C", "NNC"})} : \E cnt \in {RE(1..4)} :
              /\ \/ cur = "new" /\ Emit([D0 EXCEPT !.op = cur, !.dst = s, !.n = n, !.topo = t, !.k = RE({"universe", "universe", "empty"})])
                 \/ cur = "from_cs" /\ n > 0 /\ Emit([D0 EXCEPT !.op = cur, !.dst = s, !.n = n, !.topo = t,
                         !.cs = RandSeq(cnt, LAMBDA i : ConOf(IF ill THEN {"ge", "eq", "gt"} ELSE ConKinds(t), anchor[s], n))])
@@ -97,51 +127,51 @@ Args ==
                         !.cs = RandSeq((cnt % 2) + 1, LAMBDA i : [k |-> IF ill THEN "cg" ELSE "eq", v |-> Friendly(anchor[s], n, "eq")])])
              /\ IF ill /\ cur \in {"from_cgs", "from_cs", "from_gs"} THEN Keep ELSE SetDim(s, n, t)
      \/ /\ cur \in UnObs \cup UnMut
-        /\ \E s \in {RE(AliveS)} : Emit([D0 EXCEPT !.op = cur, !.dst = s, !.n = dim[s], !.topo = topo[s]]) /\ Keep
+        /\ \E s \in {s0} : Emit([D0 EXCEPT !.op = cur, !.dst = s, !.n = dim[s], !.topo = topo[s]]) /\ Keep
      \/ /\ cur \in VarObs
-        /\ \E s \in {RE(AliveS)} : Emit([D0 EXCEPT !.op = cur, !.dst = s, !.n = dim[s], !.topo = topo[s],
+        /\ \E s \in {s0} : Emit([D0 EXCEPT !.op = cur, !.dst = s, !.n = dim[s], !.topo = topo[s],
                                           !.var = IF ill \/ dim[s] = 0 THEN dim[s] ELSE RE(0..(dim[s]-1))]) /\ Keep
      \/ /\ cur \in ExprObs
-        /\ \E s \in {RE(AliveS)} : \E n \in {IF ill THEN dim[s] + 1 ELSE dim[s]} :
+        /\ \E s \in {s0} : \E n \in {IF ill THEN dim[s] + 1 ELSE dim[s]} :
              Emit([D0 EXCEPT !.op = cur, !.dst = s, !.n = dim[s], !.topo = topo[s], !.v = AnyCon(n)]) /\ Keep
      \/ /\ cur \in BinObs \cup BinMut
-        /\ \E s \in {RE(AliveS)} : \E t \in {LET c == {t \in AliveS : dim[t] = dim[s] /\ (ill \/ cur \in {"contains", "is_disjoint_from", "time_elapse"} \/ topo[t] = topo[s])} IN IF ill \/ c = {} THEN RE(AliveS) ELSE RE(c)} :
+        /\ \E s \in {s0} : \E t \in {LET c == {t \in AliveS : dim[t] = dim[s] /\ (ill \/ cur \in {"contains", "is_disjoint_from", "time_elapse"} \/ topo[t] = topo[s])} IN IF Recipe /\ Alive(3 - s) THEN 3 - s ELSE IF ill \/ c = {} THEN RE(AliveS) ELSE RE(c)} :
              Emit([D0 EXCEPT !.op = cur, !.dst = s, !.src = t, !.n = dim[s], !.topo = topo[s], !.var = RE(0..1)]) /\ Keep
      \/ /\ cur \in ConOps
-        /\ \E s \in {RE(AliveS)} : \E n \in {IF ill /\ RE(1..2) = 1 THEN dim[s] + 1 ELSE dim[s]} :
+        /\ \E s \in {s0} : \E n \in {IF ill /\ RE(1..2) = 1 THEN dim[s] + 1 ELSE dim[s]} :
            \E c \in {IF ill THEN RawCon(n) ELSE ConFor(s, n)} :
              Emit([D0 EXCEPT !.op = cur, !.dst = s, !.n = n, !.topo = topo[s], !.k = c.k, !.v = c.v]) /\ Keep
      \/ /\ cur \in ConsOps
-        /\ \E s \in {RE(AliveS)} : \E n \in {IF ill /\ RE(1..2) = 1 THEN dim[s] + 1 ELSE dim[s]} : \E cnt \in {RE(0..3)} :
+        /\ \E s \in {s0} : \E n \in {IF ill /\ RE(1..3) = 1 THEN dim[s] + 1 ELSE dim[s]} : \E cnt \in {IF ill THEN RE(1..4) ELSE RE(0..3)} :
              Emit([D0 EXCEPT !.op = cur, !.dst = s, !.n = n, !.topo = topo[s], !.var = RE(0..1),
                               !.cs = RandSeq(cnt, LAMBDA i : IF ill THEN RawCon(n) ELSE ConFor(s, n))]) /\ Keep
      \/ /\ cur \in GenOps
-        /\ \E s \in {RE(AliveS)} : \E n \in {IF ill /\ RE(1..2) = 1 THEN dim[s] + 1 ELSE dim[s]} :
+        /\ \E s \in {s0} : \E n \in {IF ill /\ RE(1..2) = 1 THEN dim[s] + 1 ELSE dim[s]} :
            \E g \in {FixGen(IF ill THEN RawGen(n) ELSE GenFor(s, n), n)} :
              (n > 0 \/ g.k \in {"point", "cpoint"}) /\
              Emit([D0 EXCEPT !.op = cur, !.dst = s, !.n = n, !.topo = topo[s], !.k = g.k, !.v = g.v]) /\ Keep
      \/ /\ cur \in GensOps
-        /\ \E s \in {RE(AliveS)} : \E n \in {IF ill /\ RE(1..2) = 1 THEN dim[s] + 1 ELSE dim[s]} : \E cnt \in {RE(0..2)} :
+        /\ \E s \in {s0} : \E n \in {IF ill /\ RE(1..2) = 1 THEN dim[s] + 1 ELSE dim[s]} : \E cnt \in {RE(0..2)} :
              Emit([D0 EXCEPT !.op = cur, !.dst = s, !.n = n, !.topo = topo[s], !.var = RE(0..1),
                               !.gs = (IF ill THEN <<>> ELSE <<PointFor(s, n)>>) \o
                                      RandSeq(cnt, LAMBDA i : IF n = 0 THEN [k |-> "point", v |-> <<1>>] ELSE GenFor(s, n))]) /\ Keep
      \/ /\ cur \in CgOps
-        /\ \E s \in {RE(AliveS)} : \E n \in {IF ill THEN dim[s] + 1 ELSE dim[s]} :
+        /\ \E s \in {s0} : \E n \in {IF ill THEN dim[s] + 1 ELSE dim[s]} :
              Emit([D0 EXCEPT !.op = cur, !.dst = s, !.n = n, !.topo = topo[s], !.mod = RE({0, 0, 1, 2, 3}),
                               !.v = IF RE(1..2) = 1 THEN Friendly(anchor[s], n, "eq") ELSE AnyCon(n)]) /\ Keep
      \/ /\ cur \in CgsOps
-        /\ \E s \in {RE(AliveS)} : \E n \in {IF ill THEN dim[s] + 1 ELSE dim[s]} : \E cnt \in {RE(0..2)} :
+        /\ \E s \in {s0} : \E n \in {IF ill THEN dim[s] + 1 ELSE dim[s]} : \E cnt \in {RE(0..2)} :
              Emit([D0 EXCEPT !.op = cur, !.dst = s, !.n = n, !.topo = topo[s], !.mod = RE(1..3), !.var = RE(0..1),
                               !.cs = RandSeq(cnt, LAMBDA i : [k |-> RE({"eq", "cg"}), v |-> IF RE(1..2) = 1 THEN Friendly(anchor[s], n, "eq") ELSE AnyCon(n)])]) /\ Keep
      \/ /\ cur \in ImgOps \cup LhsOps
-        /\ \E s \in {RE(AliveS)} : LET n == dim[s]
+        /\ \E s \in {s0} : LET n == dim[s]
                                        relk == IF topo[s] = "NNC" \/ ill THEN {"le", "eq", "ge", "lt", "gt"} ELSE {"le", "eq", "ge"} IN
              Emit([D0 EXCEPT !.op = cur, !.dst = s, !.n = n, !.topo = topo[s], !.k = RE(relk),
                               !.var = IF (ill /\ RE(1..3) = 1) \/ n = 0 THEN n ELSE RE(0..(n-1)),
                               !.den = IF ill /\ RE(1..3) = 1 THEN 0 ELSE RE({-2, -1, 1, 1, 2}),
                               !.v = AnyCon(IF ill /\ RE(1..3) = 1 THEN n + 1 ELSE n), !.w = AnyCon(n)]) /\ Keep
      \/ /\ cur \in DimUp
-        /\ \E s \in {RE(AliveS)} : \E t \in {RE(AliveS)} : \E add \in {IF cur = "concatenate" THEN dim[t] ELSE RE(0..2)} :
+        /\ \E s \in {s0} : \E t \in {IF Recipe /\ Alive(3 - s) THEN 3 - s ELSE RE(AliveS)} : \E add \in {IF cur = "concatenate" THEN dim[t] ELSE RE(0..2)} :
            \E ev \in {IF ill \/ dim[s] = 0 THEN dim[s] ELSE RE(0..(dim[s]-1))} :
              /\ dim[s] + add <= MaxDim /\ (cur # "concatenate" \/ topo[t] = topo[s])
              /\ Emit([D0 EXCEPT !.op = cur, !.dst = s, !.src = IF cur = "concatenate" THEN t ELSE 0, !.n = dim[s], !.topo = topo[s],
@@ -149,7 +179,7 @@ Args ==
              /\ IF cur = "expand" /\ ev = dim[s] THEN Keep
                 ELSE dim' = [dim EXCEPT ![s] = dim[s] + add] /\ UNCHANGED <<topo, anchor>>
      \/ /\ cur \in DimDown
-        /\ \E s \in {RE(AliveS)} : LET n == dim[s] IN
+        /\ \E s \in {s0} : LET n == dim[s] IN
              \/ cur = "remove_higher" /\ \E m \in {IF ill THEN n + 1 ELSE RE(0..n)} :
                   Emit([D0 EXCEPT !.op = cur, !.dst = s, !.n = n, !.topo = topo[s], !.var = m])
                   /\ IF ill THEN Keep ELSE dim' = [dim EXCEPT ![s] = m] /\ UNCHANGED <<topo, anchor>>
@@ -160,7 +190,7 @@ Args ==
                   Emit([D0 EXCEPT !.op = cur, !.dst = s, !.n = n, !.topo = topo[s], !.var = dst, !.vs = SetToSeqL(IF ill THEN R \cup {dst} ELSE R)])
                   /\ IF ill THEN Keep ELSE dim' = [dim EXCEPT ![s] = n - Cardinality(R)] /\ UNCHANGED <<topo, anchor>>
      \/ /\ cur \in DimOther
-        /\ \E s \in {RE(AliveS)} : LET n == dim[s] IN
+        /\ \E s \in {s0} : LET n == dim[s] IN
              \/ cur = "unconstrain" /\ Emit([D0 EXCEPT !.op = cur, !.dst = s, !.n = n, !.topo = topo[s], !.var = IF ill \/ n = 0 THEN n ELSE RE(0..(n-1))]) /\ Keep
              \/ cur = "unconstrain_set" /\ \E R \in {IF n = 0 THEN {} ELSE RE(SUBSET (0..(n-1)))} :
                   Emit([D0 EXCEPT !.op = cur, !.dst = s, !.n = n, !.topo = topo[s], !.vs = SetToSeqL(IF ill THEN R \cup {n} ELSE R)]) /\ Keep
@@ -173,7 +203,7 @@ Args ==
                   Emit([D0 EXCEPT !.op = cur, !.dst = s, !.n = n, !.topo = topo[s], !.vs = Mat(mp)])
                   /\ dim' = [dim EXCEPT ![s] = Cardinality(kept)] /\ UNCHANGED <<topo, anchor>>
      \/ /\ cur \in PoolOps
-        /\ \E s \in {RE(IF cur \in {"copy_from", "conv_topo", "rebuild", "dumpload"} THEN Slots ELSE AliveS)} : \E t \in {RE(AliveS)} :
+        /\ \E s \in {IF Recipe THEN 2 ELSE RE(IF cur \in {"copy_from", "conv_topo", "rebuild", "dumpload"} THEN Slots ELSE AliveS)} : \E t \in {IF Recipe THEN 1 ELSE RE(AliveS)} :
              \/ cur = "copy_from" /\ Emit([D0 EXCEPT !.op = cur, !.dst = s, !.src = t, !.n = dim[t], !.topo = topo[t]])
                   /\ dim' = [dim EXCEPT ![s] = dim[t]] /\ topo' = [topo EXCEPT ![s] = topo[t]] /\ anchor' = [anchor EXCEPT ![s] = anchor[t]]
              \/ cur = "assign" /\ Alive(s) /\ topo[s] = topo[t] /\ Emit([D0 EXCEPT !.op = cur, !.dst = s, !.src = t, !.n = dim[t], !.topo = topo[t]])
@@ -189,5 +219,5 @@ Args ==
              \/ cur = "destroy" /\ RE(1..4) = 1 /\ Emit([D0 EXCEPT !.op = cur, !.dst = s]) /\ dim' = [dim EXCEPT ![s] = -1] /\ UNCHANGED <<topo, anchor>>
 Next == ChooseOp \/ Args
 Spec == Init /\ [][Next]_vars
-EmitProg == (Len(prog) \in {MaxLen \div 2, MaxLen} /\ phase = "op") => PrintT(<<"PROG", ToJson(prog)>>)
+EmitProg == ((IF Recipe THEN Len(prog) = RecipeLen ELSE Len(prog) \in {MaxLen \div 2, MaxLen}) /\ phase = "op") => PrintT(<<"PROG", ToJson(prog)>>)
 =====================================================================
